@@ -50,8 +50,9 @@ LEVEL_TEXT = ('Machine-checked theorems for every request string, every mounting
               'tied to the code by shape pins, regenerated constants and a differential run against the real view on '
               'a real directory tree with sentinel files outside the root.')
 LEVEL_NOTE = ('Trusted: Coq kernel; hand-written model; posixpath/UTF-8/percent models; Python harness and oracles. '
-              'The plain-view mounting (use_subpath=False) decodes PATH_INFO twice; the conformance theorem for it is '
-              'partial (ASCII paths) with a refutation witness.')
+              'Which function static_view applies to request.path_info (traversal_path_info decodes a second time, '
+              'split_path_info does not) and the route remainder regex are regenerated facts; C16_facts_ok requires the '
+              'repaired values.')
 ALLOWED_AXIOMS = ()
 
 BASE = os.path.join(B.BUILD, 'C16', 'world')
@@ -125,7 +126,7 @@ def _make_world():
         with open(p, 'w', encoding='utf-8', newline='') as f:
             f.write(_content(tag, n[0], size) if not rel.endswith('.py') else '')
     for rel in sorted(OUTSIDE):
-        put(BASE, rel, OUTSIDE[rel], SENT)
+        put(BASE, rel, OUTSIDE[rel], 'ROOT' if rel == 'rootfile' else SENT)
     for rel in sorted(ROOT_FILES):
         put(os.path.join(BASE, 'root'), rel, ROOT_FILES[rel], 'f')
     for rel in sorted(ROOT_FILES):
@@ -231,7 +232,30 @@ def _abs_pieces():
             '%2f' + BASE.lstrip('/').replace('/', '%2f') + '%2fsentinel.txt']
 
 
+REAL_PATHS = ['', 'index.html', 'file.txt', 'file.txt', 'big.css', 'same.js', 'only.txt', 'a%20b.txt', '%c3%a9.txt',
+              '%e2%82%ac.txt', 'back%5cslash.txt', '...', '..a', '%252e%252e', 'nl%0a', 'sub', 'sub/', 'sub/index.html',
+              'sub/x.css', 'sub/x.css', 'sub/deep', 'sub/deep/', 'sub/deep/z.js', 'noindex', 'noindex/', 'noindex/only.txt',
+              'dirindex/', 'vardir.txt', 'home.htm', 'sub/home.htm', 'file.txt.gz', 'x.css', 'deep/z.js', 'index.html/']
+MOUNT_PREFIX = {'route': '/static/', 'catchall': '/', 'view': '/', 'subpath': '/'}
+
+
+def _gen_real_path(rng, mount):
+    """A path that names something inside the root, possibly damaged by one edit."""
+    segs = rng.choice(REAL_PATHS).split('/')
+    r = rng.random()
+    if r < 0.25:
+        segs.insert(rng.randrange(len(segs) + 1), rng.choice(SIGNIFICANT))
+    elif r < 0.35:
+        i = rng.randrange(len(segs) + 1)
+        segs[i:i] = [rng.choice(INSIDE_NAMES + OUTSIDE_NAMES), '..']
+    elif r < 0.40:
+        segs = ['..'] * rng.choice([1, 2, 5]) + segs
+    return MOUNT_PREFIX[mount] + '/'.join(segs)
+
+
 def _gen_path(rng, mount):
+    if rng.random() < 0.45:
+        return _gen_real_path(rng, mount)
     prefix = rng.choice(PREFIXES[mount])
     k = rng.choice([0, 1, 1, 2, 2, 3, 3, 4, 5, 6])
     segs = []
@@ -266,20 +290,46 @@ SUB_ELEMS = ['..', '.', '', 'a/b', '../sentinel.txt', 'sub/x.css', '/etc/passwd'
 
 def gen_case(rng):
     mount = rng.choice(['route', 'route', 'route', 'catchall', 'catchall', 'view', 'view', 'subpath', 'subpath'])
-    root = rng.choice(['fs', 'fs', 'fs', 'pkg', 'pkg', 'pkg'] + list(ROOTS))
+    root = rng.choice(['fs'] * 6 + ['pkg'] * 6 + [k for k in ROOTS if k not in ('fs-missing', 'fs-file')] * 2 + list(ROOTS))
     case = {'mount': mount, 'root': root, 'path': _gen_path(rng, mount), 'subpath': [], 'qs': rng.choice(['', '', '', 'a=1', 'x=%2f&y']),
             'ae': rng.choice(AE_VALUES) if rng.random() < 0.6 else None,
             'encs': rng.choice(ENC_SETS) if rng.random() < 0.6 else [],
             'index': 'index.html' if rng.random() < 0.85 else rng.choice(['home.htm', 'nothere.html', 'index.html']),
             'reload': rng.random() < 0.3}
     if mount == 'subpath':
-        k = rng.choice([0, 1, 1, 2, 2, 3, 4])
-        if rng.random() < 0.5:
-            case['subpath'] = [rng.choice(SUB_ELEMS[-20:]) for _ in range(k)]
+        case['subpath'], case['path'] = _gen_subpath(rng), rng.choice(PREFIXES['subpath'])
+    if rng.random() < 0.25:                       # encoded variants: something to choose from, and a client that chooses
+        case['encs'] = rng.choice(ENC_SETS[1:])
+        case['ae'] = rng.choice(AE_VALUES[2:])
+        rel = rng.choice(['file.txt', 'big.css', 'same.js', 'only.txt', 'sub/x.css', 'vardir.txt', 'index.html', 'sub/'])
+        if mount == 'subpath':
+            case['subpath'] = [x for x in rel.split('/') if x]
+            case['path'] = '/d/' if rel.endswith('/') else '/d'
         else:
-            case['subpath'] = [rng.choice(SUB_ELEMS) for _ in range(k)]
-        case['path'] = rng.choice(PREFIXES['subpath'])
+            case['path'] = MOUNT_PREFIX[mount] + rel
+    case['pre'] = []
+    if rng.random() < 0.35:                       # earlier requests served by the same view instance (filemap)
+        for _ in range(rng.choice([1, 1, 2])):
+            r = rng.random()
+            pre = {'path': case['path'], 'subpath': list(case['subpath']), 'qs': '', 'ae': case['ae']}
+            if r < 0.4:
+                pass                               # the same request again
+            elif r < 0.7:
+                pre['ae'] = rng.choice(AE_VALUES)
+            elif mount == 'subpath':
+                pre['subpath'] = _gen_subpath(rng)
+            else:
+                pre['path'] = _gen_path(rng, mount)
+            case['pre'].append(pre)
     return case
+
+
+def _gen_subpath(rng):
+    if rng.random() < 0.3:
+        return [x for x in rng.choice(REAL_PATHS).replace('%20', ' ').replace('%c3%a9', 'é').split('/') if x]
+    k = rng.choice([0, 1, 1, 2, 2, 3, 4])
+    pool = SUB_ELEMS[-20:] if rng.random() < 0.5 else SUB_ELEMS
+    return [rng.choice(pool) for _ in range(k)]
 
 
 def core_cases():
@@ -287,7 +337,7 @@ def core_cases():
     import itertools
     for combo in itertools.product(CORE6, repeat=4):
         out.append({'mount': 'route', 'root': 'fs', 'path': '/static/' + '/'.join(combo), 'subpath': [], 'qs': '',
-                    'ae': None, 'encs': [], 'index': 'index.html', 'reload': False})
+                    'ae': None, 'encs': [], 'index': 'index.html', 'reload': False, 'pre': []})
     return out
 
 
@@ -308,21 +358,35 @@ def generate(rng, tier, n):
         yield gen_case(rng)
 
 
+def _valid_req(mount, r):
+    if not isinstance(r['path'], str) or any(ord(ch) > 255 for ch in r['path']):
+        return False
+    if mount == 'subpath' and any(ord(ch) > 127 or ch == '%' for ch in r['path']):
+        return False
+    if not isinstance(r['subpath'], list):
+        return False
+    if not all(isinstance(s, str) and all(ord(ch) < 0xD800 for ch in s) for s in r['subpath']):
+        return False
+    if r['ae'] is not None and not isinstance(r['ae'], str):
+        return False
+    return isinstance(r['qs'], str) and not any(ord(ch) > 126 or ord(ch) < 33 for ch in r['qs'])
+
+
+def _requests(case):
+    return list(case['pre']) + [case]
+
+
 def valid(case):
     try:
         if case['mount'] not in MOUNTS or case['root'] not in ROOTS:
             return False
-        if not isinstance(case['path'], str) or any(ord(ch) > 255 for ch in case['path']):
+        if not isinstance(case['pre'], list) or len(case['pre']) > 3:
             return False
-        if case['mount'] == 'subpath' and any(ord(ch) > 127 or ch == '%' for ch in case['path']):
+        if not all(set(r) == {'path', 'subpath', 'qs', 'ae'} and _valid_req(case['mount'], r) for r in case['pre']):
             return False
-        if not all(isinstance(s, str) and all(ord(ch) < 0xD800 for ch in s) for s in case['subpath']):
-            return False
-        if case['ae'] is not None and not isinstance(case['ae'], str):
+        if not _valid_req(case['mount'], case):
             return False
         if not isinstance(case['index'], str) or not case['index'] or '/' in case['index'] or case['index'] in ('.', '..'):
-            return False
-        if not isinstance(case['qs'], str) or any(ord(ch) > 126 or ord(ch) < 33 for ch in case['qs']):
             return False
         return isinstance(case['encs'], list) and all(isinstance(e, str) and e for e in case['encs']) \
             and isinstance(case['reload'], bool)
@@ -332,7 +396,7 @@ def valid(case):
 
 # ------------------------------------------------------------------ oracles and wire
 def _environ(case):
-    pi = _state['unquote'](case['path'].encode('latin-1'))       # the WSGI server's job
+    pi = _pi(case)       # the WSGI server's job
     env = {'REQUEST_METHOD': 'GET', 'SCRIPT_NAME': '', 'PATH_INFO': pi, 'QUERY_STRING': case['qs'],
            'SERVER_NAME': 'localhost', 'SERVER_PORT': '80', 'SERVER_PROTOCOL': 'HTTP/1.1',
            'wsgi.url_scheme': 'http', 'wsgi.version': (1, 0), 'wsgi.input': io.BytesIO(b''),
@@ -340,6 +404,10 @@ def _environ(case):
     if case['ae'] is not None:
         env['HTTP_ACCEPT_ENCODING'] = case['ae']
     return env
+
+
+def _pi(r):
+    return _state['unquote'](r['path'].encode('latin-1'))       # the WSGI server's job
 
 
 ALL_ENCODINGS = ['gzip', 'compress', 'bzip2', 'xz', 'br']
@@ -370,18 +438,21 @@ def to_wire(case):
     if not _state:
         setup('quick')
     is_pkg, docroot = _docroot(case)
-    truthy, ok = _ae_oracle(case['ae'])
     cfg = [MOUNTS.index(case['mount']), 'static', is_pkg, docroot, _state['modpath'], case['index'], list(case['encs']),
-           _state['encmap'], 'http://localhost', _state['safe']]
-    req = [case['path'].encode('latin-1'), list(case['subpath']), case['qs'], truthy, ok]
-    return [cfg, req, _state['listing']]
+           _state['encmap'], 'http://localhost', _state['safe'], case['reload']]
+    reqs = []
+    for r in _requests(case):
+        truthy, ok = _ae_oracle(r['ae'])
+        reqs.append([r['path'].encode('latin-1'), list(r['subpath']), r['qs'], truthy, ok])
+    return [cfg, reqs, _state['listing']]
 
 
 def from_wire(case, raw):
-    if raw == [['bad']] or len(raw) != 7:
+    if raw == [['bad']] or len(raw) != 3:
         return {'model': ['MODEL-BAD', raw], 'spec': None}
-    resp, log, spec, conf, cont, sec, sec_spec = raw
-    return {'model': [resp, log, sec], 'spec': [spec, conf, cont, sec_spec]}
+    per, sec, sec_spec = raw
+    return {'model': [[[x[0], x[1]] for x in per], sec],
+            'spec': [[[x[2], x[3], x[4]] for x in per], sec_spec]}
 
 
 # ------------------------------------------------------------------ implementation
@@ -422,11 +493,6 @@ def _view(case):
 
 
 def _get_app(case):
-    key = (case['mount'], case['root'], tuple(case['encs']), case['index'] if case['mount'] != 'route' else '',
-           case['reload'])
-    app = _state['apps'].get(key)
-    if app is not None:
-        return app
     from pyramid.config import Configurator
     kw, spec = _view(case)
     if case['mount'] == 'route':
@@ -443,7 +509,6 @@ def _get_app(case):
         app = ('view', _state['static_view'](spec, use_subpath=False, **kw))
     else:
         app = ('view', _state['static_view'](spec, use_subpath=True, **kw))
-    _state['apps'][key] = app
     return app
 
 
@@ -486,35 +551,39 @@ def _call_wsgi(app, env):
     return got['status'], got['headers'], body
 
 
-def run_impl(case):
-    if not _state:
-        setup('quick')
-    kind, app = _get_app(case)
-    env = _environ(case)
+def _run_one(kind, app, mount, r):
+    env = _environ(r)
     with _Trace() as tr:
         try:
             if kind == 'wsgi':
                 status, headers, body = _call_wsgi(app, env)
-                resp = _observe_response(status, headers, body)
             else:
                 req = _state['Request'](env)
-                if case['mount'] == 'subpath':
-                    req.subpath = tuple(case['subpath'])
+                if mount == 'subpath':
+                    req.subpath = tuple(r['subpath'])
                 try:
-                    r = app(None, req)
+                    resp_obj = app(None, req)
                 except _state['HTTPException'] as e:       # an HTTP exception is a response
-                    r = e
-                status, headers, body = _call_wsgi(r, env)
-                resp = _observe_response(status, headers, body)
+                    resp_obj = e
+                status, headers, body = _call_wsgi(resp_obj, env)
+            resp = _observe_response(status, headers, body)
         except Exception as e:
             n = type(e).__name__
             resp = [0, EXC[n]] if n in EXC else ['EXC', n, str(e)[:120]]
+    return [resp, tr.log]
+
+
+def run_impl(case):
+    if not _state:
+        setup('quick')
+    kind, app = _get_app(case)               # a fresh view instance (empty filemap) per case
+    outs = [_run_one(kind, app, case['mount'], r) for r in _requests(case)]
     try:
         sec = _state['secure'](tuple(case['subpath']))
         sec = [] if sec is None else [sec]
     except Exception as e:
         sec = ['EXC', type(e).__name__]
-    return [resp, tr.log, sec]
+    return [outs, sec]
 
 
 # ------------------------------------------------------------------ judging
@@ -549,59 +618,100 @@ def _conforms(resp, spec):
     return False
 
 
+def _root_is_dir(case):
+    return os.path.isdir(_root_real(case))
+
+
+def _escapes(case, resp, trace):
+    """Paths of the trace that are not at or below the root (plus a marker if outside content was served)."""
+    root = _root_real(case)
+    bad = [p for op, p in trace if not _under(root, p)]
+    if resp and resp[0] == 200 and SENT in resp[1]:
+        bad.append('<content of a file outside the root>')
+    return bad
+
+
+def _boundary(case, bad):
+    """Specification boundary: the configured root is not a directory; then <root><ext> of an encoded variant is
+    probed (and may be served).  The theorems carry the hypothesis that the root is a directory."""
+    if _root_is_dir(case) or not case['encs']:
+        return False
+    root = _root_real(case)
+    allowed = {root + ext for ext, _ in _state['encmap']} | {'<content of a file outside the root>'}
+    return all(p in allowed for p in bad)
+
+
+def _judge_one(case, r, out, sp):
+    resp, trace = out
+    bad = _escapes(case, resp, trace)
+    if bad:
+        return None if _boundary(case, bad) else False
+    return _conforms(resp, sp[0])
+
+
 def spec_holds(case, obs, spec):
     if spec is None:
         return None
-    sp, _model_conf, _model_cont, sec_spec = spec
-    resp, trace, sec = obs
-    # 1. nothing outside the root is touched, nothing from outside is served
-    root = _root_real(case)
-    for op, p in trace:
-        if not _under(root, p):
-            return False
-    if resp and resp[0] == 200 and SENT in resp[1]:
+    per_spec, sec_spec = spec
+    outs, sec = obs
+    if len(outs) != len(per_spec):
         return False
-    # 2. _secure_path is what the specification says
-    if sec != sec_spec:
+    verdicts = [_judge_one(case, r, o, sp) for r, o, sp in zip(_requests(case), outs, per_spec)]
+    if sec != sec_spec:                    # _secure_path is what the specification says
         return False
-    # 3. the response is one the specification allows
-    return _conforms(resp, sp)
+    if any(v is False for v in verdicts):
+        return False
+    if any(v is None for v in verdicts):
+        return None
+    return True
 
 
-def _nonascii(case):
+def _nonascii(r):
     try:
-        return any(ord(ch) > 127 for ch in _state['unquote'](case['path'].encode('latin-1')))
+        return any(ord(ch) > 127 for ch in _pi(r))
     except Exception:
         return False
 
 
 def classify(case, obs, spec):
+    """A spec failure is a known finding only if every failing request of the case is exactly that finding."""
     if spec is None:
         return None
-    resp, trace, sec = obs
-    root = _root_real(case)
-    contained = all(_under(root, p) for op, p in trace) and not (resp and resp[0] == 200 and SENT in resp[1])
-    if not contained or sec != spec[3]:
+    per_spec, sec_spec = spec
+    outs, sec = obs
+    if sec != sec_spec or len(outs) != len(per_spec):
         return None
-    if case['mount'] == 'view' and _nonascii(case) and (resp[0] in (200, 404, 301) or resp in ([0, 1], [0, 3])):
-        return 'C16-plain-view-decodes-twice'
-    pi = _state['unquote'](case['path'].encode('latin-1'))
-    if case['mount'] in ('route', 'catchall') and '\n' in pi and not (
-            _state_facts.get('route_remainder_dotall', True) and _state_facts.get('route_anchor_abs', True)):
-        return 'C16-route-remainder-newline'
-    return None
+    found = set()
+    for r, o, sp in zip(_requests(case), outs, per_spec):
+        v = _judge_one(case, r, o, sp)
+        if v is not False:
+            continue
+        resp, trace = o
+        if _escapes(case, resp, trace):
+            return None
+        if case['mount'] == 'view' and _nonascii(r) and _state_facts.get('view_decodes_again') and (
+                resp[0] in (200, 404, 301) or resp in ([0, 1], [0, 3])):
+            found.add('C16-plain-view-decodes-twice')
+        elif case['mount'] in ('route', 'catchall') and '\n' in _pi(r) and not (
+                _state_facts.get('route_remainder_dotall', True) and _state_facts.get('route_anchor_abs', True)):
+            found.add('C16-route-remainder-newline')
+        else:
+            return None
+    return found.pop() if len(found) == 1 else None
 
 
 PIECES = ['..', '%2e', '%2f', '%5c', '\\', '%00', '//', '%c0', '%25', 'sentinel', 'secret', 'passwd', 'outside']
 
 
 def _reached(obs):
-    r = obs[0]
+    r = obs[0][-1][0]
     return not (r and r[0] == 404 and r[1] == 0)
 
 
 def nontrivial(case, obs):
-    r = obs[0]
+    if not isinstance(obs[0], list) or not obs[0] or not isinstance(obs[0][-1], list):
+        return False
+    r = obs[0][-1][0]
     if not r or not _reached(obs):
         return False
     if r[0] in (200, 301):
@@ -611,7 +721,9 @@ def nontrivial(case, obs):
 
 
 def kinds(case, obs):
-    r = obs[0]
+    if not isinstance(obs[0], list) or not obs[0] or not isinstance(obs[0][-1], list):
+        return ['harness-exc']
+    r, trace = obs[0][-1]
     k = ['mount-' + case['mount'], 'root-' + ('pkg' if ROOTS[case['root']][0] else 'fs'), 'rootkey-' + case['root']]
     if not r:
         k.append('out-none')
@@ -637,9 +749,12 @@ def kinds(case, obs):
         k.append('ae-present')
     if case['encs']:
         k.append('encs-configured')
-    k.append('trace-len-%d' % min(len(obs[1]), 9) if isinstance(obs[1], list) else 'trace-none')
+    k.append('trace-len-%d' % min(len(trace), 9))
+    k.append('pre-%d' % len(case['pre']))
+    if case['pre'] and len(trace) < 4 and r and r[0] == 200:
+        k.append('filemap-hit')
     if case['mount'] == 'subpath':
-        k.append('secure-' + ('none' if obs[2] == [] else 'some'))
+        k.append('secure-' + ('none' if obs[1] == [] else 'some'))
     return k
 
 
@@ -648,15 +763,15 @@ def describe(case):
 
 
 def explain(item):
-    return {'request_path': item['case'].get('path'), 'mount': item['case'].get('mount'), 'root': item['case'].get('root'),
-            'world': BASE, 'note': 'observation = [response, ordered os.stat(0)/open(1) trace, _secure_path(subpath)]'}
+    return {'request_path': item['case'].get('path'), 'earlier_requests': item['case'].get('pre'), 'mount': item['case'].get('mount'), 'root': item['case'].get('root'),
+            'world': BASE, 'note': 'observation = [[response, ordered os.stat(0)/open(1) trace] per request, _secure_path(subpath)]'}
 
 
 def targeted(broken, disagreements, rng):
     """Inputs aimed at the belt-and-braces checks of _secure_path and at the route remainder."""
     out = []
     base = {'mount': 'subpath', 'root': 'fs', 'path': '/', 'subpath': [], 'qs': '', 'ae': None, 'encs': [],
-            'index': 'index.html', 'reload': False}
+            'index': 'index.html', 'reload': False, 'pre': []}
     elems = ['..', '.', '', 'sentinel.txt', 'sub', 'file.txt', '../sentinel.txt', 'sub/../../sentinel.txt', 'a/b',
              '/', '\x00', 'file.txt\x00', '..\x00', 'secret', 'passwd', 'index.html', 'x.css', '\\', 'outside.txt', 'static.gz']
     import itertools
